@@ -1,6 +1,6 @@
 //! C24 — the capacity limit is never exceeded by committed payloads.
-//! impl: real `Memvid` (apply_ticket sets the capacity); model: drv_c24 (Lean Core model + the repaired
-//! capacity check of MvModel/Capacity.lean); oracle (independent of the model, on the implementation's own
+//! impl: real `Memvid` (apply_ticket sets the capacity); model: drv_c24 (the shared Lean Core model, which
+//! contains the exact capacity check since ed05539); oracle (independent of the model, on the implementation's own
 //! observations): (1) no operation moves the end of the payload region — max(cached_payload_end, end of every
 //! stored frame payload), absolute — beyond capacity_limit() (it may stay where it was); (2) a put / update
 //! answered CapacityExceeded leaves the observation of the handle unchanged; (3) stats().capacity_bytes is the limit;
@@ -51,7 +51,7 @@ fn main() {
     prof.corpus = corpus();
     let cfg = FamilyConfig {
         property: "C24",
-        rule: "operation histories on a real .mv2 file and on the Lean model (Core model + repaired capacity check), full \
+        rule: "operation histories on a real .mv2 file and on the Lean Core model, full \
                observation compared after every op; tickets set the capacity just above the current payload end (+0..3000, \
                +0..200000) or far above it; puts (binary / text, whole and chunked, 0..9000 bytes, a few > 64 KiB) with and \
                without intervening commits, updates with and without payload, deletes, reopen, skip-index commits, vacuum, \
@@ -95,7 +95,8 @@ fn main() {
             let what = format!("payload region ended at byte {} (data start {} + {}) before the op and ends at byte {} (data start {} + {}) after it; capacity_limit() = {}",
                 abs_end(b), WAL_OFFSET + b.wal_size, region_end(b), abs_end(a), WAL_OFFSET + a.wal_size, region_end(a), a.capacity);
             // the excess is explained by the WAL growth alone: without the shift the region would end inside the limit
-            let sig = if shift > 0 && abs_end(a) - shift <= a.capacity { "wal-growth-moves-payload-region-past-capacity" }
+            // (or the region did not grow at all relative to the data start: the whole move is the WAL shift of this op)
+            let sig = if shift > 0 && (abs_end(a) - shift <= a.capacity || (grew_now && region_end(a) <= region_end(b))) { "wal-growth-moves-payload-region-past-capacity" }
                 else if matches!(v.op, Op::Crash) && b.pending_inserts > 0 { "crash-replay-appends-payloads-after-index-region" }
                 else { "payload-region-grows-beyond-capacity" };
             res = Some((sig.into(), what));
